@@ -81,12 +81,12 @@ Definition wf_node (n : node) : bool := type_ok (ntype n) && id_ok (nid n).
 (* predicate.NewImmutable / NewTemporal: id not empty *)
 Definition wf_pred (p : pred) : bool := match pid p with [] => false | _ => true end.
 
-(* literal.Build: value matches type — by construction of the datatype; float bits fit 64 bits; int fits int64 *)
+(* literal.Build: value matches type — by construction of the datatype; int fits int64
+   (a float64 is any bit pattern; that it has 64 bits is part of the domain predicates, Dom.v) *)
 Definition in_int64 (z : Z) : bool := (-9223372036854775808 <=? z)%Z && (z <=? 9223372036854775807)%Z.
 Definition wf_literal (l : literal) : bool :=
   match l with
   | LInt z => in_int64 z
-  | LFloat b => (b <? 18446744073709551616)%N
   | _ => true
   end.
 
